@@ -256,6 +256,10 @@ class E3:
             unh = ip.gset(s, "unhinged")
             self.rec("C07", "%s:exit[%s]:no-unhinged-entry" % (name, sig), not unh,
                      "when `%s` returns %s every entry of the table is in the list (none was unlinked and left in the table)" % (name, sig), loc)
+            fr_ = ip.gset(s, "freed_read")
+            self.rec("C07", "%s:exit[%s]:no-read-of-freed-entry" % (name, sig), not fr_,
+                     "on the way to `%s` returning %s no entry was read through a handle into a table whose allocation had already been released "
+                     "(reallocated and dropped)" % (name, sig), loc, {"fields": sorted(fr_)} if fr_ else None)
             sw = ip.gset(s, "stale_write")
             self.rec("C07", "%s:exit[%s]:no-write-through-stale-handle" % (name, sig), not sw,
                      "on the way to `%s` returning %s nothing was written through a handle to an entry that may already have left its table "
@@ -278,7 +282,7 @@ class E3:
                              "when `%s` returns %s the entry it found has been made most-recently-used on every path" % (name, sig), loc,
                              {"found_but_not_promoted_on_some_path": pending} if pending else None)
                     if succ is True and name in ("insert", "try_insert", "get_lru"):
-                        self.rec("C05", "%s:exit[%s]:success-promotes" % (name, sig), bool(must),
+                        self.rec("C05", "%s:exit[%s]:success-promotes" % (name, sig), bool(ip.gset(s, "promoted_any")),
                                  "when `%s` returns %s an entry has been linked at the most-recently-used end on every path" % (name, sig), loc)
             else:
                 self.rec("C05", "%s:exit[%s]:does-not-promote" % (name, sig), not may,
